@@ -24,6 +24,11 @@ FAM_SAN = {'int': 'with = |x| x / 2', 'float': 'with = |x| x / 2.0', 'string': '
 FAM_DEFAULT = {'int': '7', 'float': '7.5', 'string': '"abc"', 'any': 'vec![1]'}
 FAM_CHK = {'int': 'chk_i', 'float': 'chk_f', 'string': 'chk_s', 'any': 'chk_v'}
 
+def wit_features(cfg):
+    from . import wit
+    return wit.CONFIGS[cfg][1]
+
+
 ALL_TRAITS = ['Debug', 'Clone', 'Copy', 'PartialEq', 'Eq', 'PartialOrd', 'Ord', 'Hash', 'AsRef', 'Deref', 'Borrow', 'Into', 'Display',
               'FromStr', 'TryFrom', 'From', 'Default', 'IntoIterator', 'Serialize', 'Deserialize', 'Arbitrary', 'JsonSchema']
 # prerequisites added so that the single trait under test is the only open question
@@ -35,7 +40,9 @@ def sigma_trait(fam, tr, has_validation, has_finite, cfg, custom=False, custom_s
     if tr in ('Serialize', 'Deserialize'):
         return cfg == 'full'
     if tr == 'JsonSchema':
-        return False if cfg in ('full', 'bare') else None      # neither witness configuration enables schemars08
+        if cfg == 'sch':
+            return fam != 'any'
+        return False
     if tr == 'Arbitrary':
         if cfg != 'full':
             return False
@@ -75,11 +82,11 @@ def decl_src(fam, attr, inner=None, name='T', generics='', vis='pub', extra=''):
 def build(tier='quick'):
     ws = []
 
-    def add(wid, cfg, src, accept, what):
+    def add(wid, cfg, src, accept, what, msg=None):
         if accept is None:
             return
-        ws.append({'id': 'c08-' + wid, 'cfg': cfg, 'src': src, 'expect': 'pass' if accept else {'fail': None, 'msg': None},
-                   'line': None, 'what': what + (' -> accepted' if accept else ' -> refused')})
+        ws.append({'id': 'c08-' + wid, 'cfg': cfg, 'src': src, 'expect': 'pass' if accept else {'fail': None, 'msg': msg},
+                   'line': None, 'what': what + (' -> accepted' if accept else ' -> refused' + (' by the macro, naming the missing feature' if msg else ''))})
 
     # ---- derive matrix: trait x family x validation x finite x feature config
     for fam in FAM_INNER:
@@ -87,8 +94,8 @@ def build(tier='quick'):
             finites = (False, True) if (fam == 'float' and hv) else (False,)
             for fin in finites:
                 for tr in ALL_TRAITS:
-                    for cfg in ('full', 'bare'):
-                        if cfg == 'bare' and tr not in ('Serialize', 'Deserialize', 'Arbitrary', 'JsonSchema'):
+                    for cfg in ('full', 'bare', 'sch'):
+                        if cfg in ('bare', 'sch') and tr not in ('Serialize', 'Deserialize', 'Arbitrary', 'JsonSchema'):
                             continue
                         acc = sigma_trait(fam, tr, hv, fin, cfg, pred=(fam == 'any' and hv))
                         if tr == 'Default':
@@ -103,8 +110,13 @@ def build(tier='quick'):
                                 v = 'finite, ' + v
                             vtxt = f'validate({v}), '
                         src = decl_src(fam, f'{vtxt}derive({", ".join(ds)})')
+                        # a feature-gated trait whose feature is off must be refused *by the macro* with the message that names
+                        # the feature (not by rustc failing to resolve the optional crate later)
+                        gate = {'Serialize': 'serde', 'Deserialize': 'serde', 'Arbitrary': 'arbitrary', 'JsonSchema': 'schemars08'}.get(tr)
+                        feature_off = gate is not None and gate not in wit_features(cfg)
                         add(f'derive-{fam}-{"v" if hv else "nv"}{"f" if fin else ""}-{tr}-{cfg}', cfg, src, acc,
-                            f'{fam}: derive({tr}) with{"" if hv else "out"} validation{" incl. finite" if fin else ""} [{cfg}]')
+                            f'{fam}: derive({tr}) with{"" if hv else "out"} validation{" incl. finite" if fin else ""} [{cfg}]',
+                            msg=(r'feature `' + gate + '`') if (feature_off and not acc) else None)
         # From + TryFrom together
         add(f'derive-{fam}-from-and-tryfrom', 'full', decl_src(fam, 'derive(From, TryFrom)'), False, f'{fam}: From and TryFrom together')
         # Default with / without default value, with / without derive
